@@ -4395,7 +4395,16 @@ func (c *BytecodeCompiler) listOrTuplePattern(typ, elementType types.Type, locat
 		c.emit(location.StartPos.Line, bytecode.UNDEFINED)
 		c.emit(location.StartPos.Line, bytecode.UNDEFINED)
 		c.emitNewArrayList(0, location)
-		restListVar = c.defineLocal(restVariableName, location)
+		switch c.mode {
+		case valuePatternDeclarationBytecodeCompilerMode:
+			restListVar = c.defineLocal(restVariableName, location)
+		default:
+			// the same rest variable may be bound by both sides of `||`
+			restListVar = c.defineLocalOverrideCurrentScope(restVariableName, location)
+		}
+		if restListVar == nil {
+			return
+		}
 		c.emitSetLocalNoPop(location.StartPos.Line, restListVar.index)
 		c.emit(location.StartPos.Line, bytecode.POP)
 	}
@@ -4424,7 +4433,8 @@ func (c *BytecodeCompiler) listOrTuplePattern(typ, elementType types.Type, locat
 
 	var lengthVar *bytecodeLocal
 	if elementBeforeRestCount != -1 {
-		lengthVar = c.defineLocal(fmt.Sprintf("#!listPatternLength%d", c.patternNesting), location)
+		// a pattern may contain several list patterns with rest elements on the same nesting level (`[1, *] || [*, 2]`)
+		lengthVar = c.defineLocalOverrideCurrentScope(fmt.Sprintf("#!listPatternLength%d", c.patternNesting), location)
 		c.emitSetLocalNoPop(location.StartPos.Line, lengthVar.index)
 	}
 
@@ -4459,7 +4469,7 @@ func (c *BytecodeCompiler) listOrTuplePattern(typ, elementType types.Type, locat
 	}
 
 	if elementBeforeRestCount != -1 {
-		iteratorVar := c.defineLocal(fmt.Sprintf("#!listPatternIterator%d", c.patternNesting), location)
+		iteratorVar := c.defineLocalOverrideCurrentScope(fmt.Sprintf("#!listPatternIterator%d", c.patternNesting), location)
 
 		if restVariableName != "" {
 			// adjust the length variable
